@@ -83,10 +83,12 @@ func (s *SubFS) Chtimes(path string, atime time.Time, mtime time.Time) error {
 }
 
 func (s *SubFS) Symlink(oldname, newname string) error {
-	return s.FS.Symlink(oldname, newname)
+	// oldname is the link's target text and is stored as given; the link itself lives under the root
+	fullPath := filepath.Join(s.Root, newname)
+	return s.FS.Symlink(oldname, fullPath)
 }
 func (s *SubFS) Link(oldname, newname string) error {
-	return s.FS.Link(oldname, newname)
+	return s.FS.Link(filepath.Join(s.Root, oldname), filepath.Join(s.Root, newname))
 }
 func (s *SubFS) Readlink(name string) (string, error) {
 	fullPath := filepath.Join(s.Root, name)
